@@ -129,10 +129,39 @@ fn run_case_on_current_build(case: &Case, st: &mut Stats) -> CaseResult {
     // weights file
     let mut wobj = serde_json::Map::new();
     let mut w: Vec<(f64, f64)> = vec![(0.0, 0.0); m];
+    // a quarter of the cases: one variable carries weights with 26 significant bits (k / 2^26, k odd and above
+    // 2^25: not representable in single precision), all other weights are multiples of 1/4 up to 1, so that every
+    // sum of products still has at most 50 significant bits and the comparison below stays exact
+    let fine: Option<usize> = if m > 0 && case.seps.get(1).map(|b| b % 4 == 0).unwrap_or(false) {
+        Some(case.seps.get(2).copied().unwrap_or(0) as usize % m)
+    } else {
+        None
+    };
+    st.flag("wmc.one_weight_with_26_significant_bits", fine.is_some());
+    let coarse = |l: u8, h: u8| -> (f64, f64) {
+        if case.normalised {
+            (1.0 - (h % 5) as f64 / 4.0, (h % 5) as f64 / 4.0)
+        } else {
+            ((l % 5) as f64 / 4.0, (h % 5) as f64 / 4.0)
+        }
+    };
+    let fine_val = |x: u8, salt: u64| -> f64 {
+        let k = (1u64 << 25) | (crate::engine::splitmix(x as u64 ^ salt) & ((1 << 25) - 1)) | 1;
+        k as f64 / (1u64 << 26) as f64
+    };
     for (i, nm) in used.iter().enumerate() {
         let v = case.names.iter().position(|x| x == nm).unwrap();
         if let Some(Some((l, h))) = case.weights.get(v) {
-            let (l, h) = if case.normalised {
+            let (l, h) = if fine == Some(i) {
+                let hv = fine_val(*h, 0x19);
+                if case.normalised {
+                    (1.0 - hv, hv)
+                } else {
+                    (fine_val(*l, 0x91), hv)
+                }
+            } else if fine.is_some() {
+                coarse(*l, *h)
+            } else if case.normalised {
                 (1.0 - (*h % 9) as f64 / 8.0, (*h % 9) as f64 / 8.0)
             } else {
                 ((*l % 41) as f64 / 8.0, (*h % 41) as f64 / 8.0)
@@ -149,7 +178,9 @@ fn run_case_on_current_build(case: &Case, st: &mut Stats) -> CaseResult {
         while used.contains(&nm) || case.names.contains(&nm) || extras.iter().any(|e| e.0 == nm) {
             nm.push('x');
         }
-        let (l, h) = if case.normalised {
+        let (l, h) = if fine.is_some() {
+            coarse(*l, *h)
+        } else if case.normalised {
             (1.0 - (*h % 9) as f64 / 8.0, (*h % 9) as f64 / 8.0)
         } else {
             ((*l % 41) as f64 / 8.0, (*h % 41) as f64 / 8.0)
